@@ -189,7 +189,7 @@ def eval_device(case):
         # rate limit
         for f1, f2 in zip(fr, fr[1:]):
             m1, m2 = f1["t"] // 1000, f2["t"] // 1000
-            if m1 > 0 and m2 - m1 < a["speed"]:
+            if (m1 & 0xffffffff) > 0 and m2 - m1 < a["speed"]:   # a step stamped millis() == 0 (start-up, or the very millisecond of the 32-bit wrap) reads as "not stepped yet"
                 return "FAIL", [mk("steps-faster-than-speed_ms", f">= {a['speed']} ms between steps", f"{m2 - m1} ms (passes {f1['pass']}->{f2['pass']})")]
         if a["speed"] == 0 and a["loop"] and len(fr) < n - 1:
             return "FAIL", [mk("not-advanced-every-pass", f"one step in each of {n} passes (speed_ms=0, looping)", f"{len(fr)} frames")]
